@@ -49,7 +49,7 @@ class C11(Check):
                    'the must-be-zero clause is one-directional (the code may zero more, e.g. spline rejections and region growth)',
                    'output pixels within 1e-6 pixel (float32 grids: 1e-3 pixel) of a good input pixel are free (boundary band)',
                    'reproduction is asserted only >= 5 input pixels away from any bad pixel or edge, for noise-free inputs of period >= 60 px']
-    REQUIRED_COUNTERS = ('scaling_noisy_cases', 'scaling_without_ivar', 'tiny_flux_unit_cases', 'calls_1d', 'calls_2d', 'calls_no_ivar', 'must_be_zero_pixels', 'nonzero_ivar_pixels_interp_checked',
+    REQUIRED_COUNTERS = ('reproduce_integer_flux', 'reproduce_one_sided_windows', 'scaling_noisy_cases', 'scaling_without_ivar', 'tiny_flux_unit_cases', 'calls_1d', 'calls_2d', 'calls_no_ivar', 'must_be_zero_pixels', 'nonzero_ivar_pixels_interp_checked',
                          'allbad_cases', 'disjoint_grid_cases', 'reproduction_cases', 'scaling_cases', 'deredshift_cases',
                          'method_traditional', 'method_noconst', 'method_mean', 'method_damp', 'method_nothing', 'float32_cases',
                          'isolated_good_pixel_cases', 'multi_group_cases')
@@ -188,6 +188,15 @@ class C11(Check):
             case = {'kind': cls, 'n': n, 'l0': l0, 'dl': dl, 'period': per, 'amp': amp, 'level': rng.uniform(5, 20), 'const': const,
                     'iv': iv.tolist(), 'shift': shift, 'c': rng.choice([2.0, 0.5, 3.7, 1e3, 1e-3, -1.0, 1e-10, 1e-17, 1e12]), 'method': meth, 'pattern': pat,
                     'unit': rng.choice([1.0, 1.0, 1e-17, 1e5])}
+            # output windows whose two ends differ (one end at / beyond the data edge, the other inside good data), and flux given
+            # in other dtypes (float32; integer counts for constant spectra)
+            case['window'] = rng.choice(['same', 'same', 'left', 'right', 'interior'])
+            case['wpar'] = [rng.randint(0, 10), rng.uniform(0.35, 0.65)]
+            if cls == 'reproduce':
+                case['fdtype'] = rng.choice(['f8', 'f8', 'f4', 'i2', 'i4', 'i8']) if const else rng.choice(['f8', 'f8', 'f4'])
+                if case['fdtype'].startswith('i'):
+                    case['level'] = float(rng.randint(3, 2000))
+                    case['unit'] = 1.0
             if cls == 'scaling' and rng.random() < 0.5:
                 # noisy spectra (pixel-to-pixel structure, so the fit's own rejection is exercised), with or without an inverse
                 # variance: c is a power of two, for which (c*flux, ivar/c^2) is an exact rescaling of every intermediate
@@ -310,19 +319,33 @@ class C11(Check):
             (lambda L: unit * (case['level'] + case['amp'] * np.sin((L - l0) / dl * 2 * np.pi / case['period'])))
         iv = np.array(case['iv']) / unit ** 2
         nl = ll + case['shift'] * dl
+        win = case.get('window', 'same')
+        if win != 'same':
+            e, frac = case['wpar']
+            m = int(frac * n)
+            if win == 'left':            # starts e pixels before the data, ends inside
+                nl = ll[0] + dl * (np.arange(-e, m) + case['shift'])
+            elif win == 'right':         # starts inside, ends e pixels beyond the data
+                nl = ll[0] + dl * (np.arange(m, n + e) + case['shift'])
+            else:                        # both ends inside good data
+                nl = ll[0] + dl * (np.arange(n // 5, n - n // 5) + case['shift'])
         return ll, sig, iv, nl
 
     def _far_from_bad(self, ll, iv, nl, dl):
         bad_pos = np.concatenate([ll[iv == 0], [ll[0] - dl, ll[-1] + dl]])
         d = np.abs(nl[:, None] - bad_pos[None, :]).min(axis=1)
-        return d >= 5.0 * dl
+        return (d >= 5.0 * dl) & (nl >= ll[0]) & (nl <= ll[-1])
 
     def run_reproduce(self, case, out):
         ll, sig, iv, nl = self._smooth_case(case)
         dl = case['dl']
-        f, i = self._c1f(ll.copy(), sig(ll), nl.copy(), iv.copy(), case['method'])
+        fdt = case.get('fdtype', 'f8')
+        fin = sig(ll).astype(fdt)
+        f, i = self._c1f(ll.copy(), fin, nl.copy(), iv.copy(), case['method'])
         out.count('method_' + case['method'])
         out.count('calls_1d')
+        out.count('reproduce_integer_flux', fdt.startswith('i'))
+        out.count('reproduce_one_sided_windows', case.get('window', 'same') in ('left', 'right'))
         if not self._basic(out, f, i, nl, 'reproduce'):
             return
         far = self._far_from_bad(ll, iv, nl, dl)
@@ -331,6 +354,8 @@ class C11(Check):
             out.expect(bool(np.all(i[far] > 0)), 'reproduce', 'good, smooth region lost its inverse variance (%d pixels)' % int((i[far] == 0).sum()))
             dev = float(np.abs(f[far] - sig(nl[far])).max())
             lim = (1e-10 if case['const'] else 1e-4) * amp
+            if fdt == 'f4':
+                lim = max(lim, 1e-5 * amp)
             out.expect(dev <= lim, 'reproduce', 'resampled flux deviates from the smooth input by %.3g (limit %.3g; shift %.2f px, const=%s)'
                        % (dev, lim, case['shift'], case['const']))
         out.count('reproduction_cases')
